@@ -219,8 +219,26 @@ func TestC01_Generated(t *testing.T) {
 		Gen: func(t *rapid.T) c01Gen {
 			ws := gen.GenWorkspace(t, gen.Config{})
 			c := c01Gen{}
-			if rapid.Bool().Draw(t, "mutate") {
+			if gen.Pct(t, 60, "relative") {
+				gen.RespellRefs(t, ws) // any spelling the scoping reference model maps to the target
+			}
+			switch gen.Uniform(t, 10, "mutate") {
+			case 0, 1, 2, 3:
 				c.Mutation = gen.Mutate(t, ws)
+			case 4:
+				// a reference spelled in a way protoc's scoping rules cannot resolve
+				st := gen.NewSymTab(ws)
+				var bad []func()
+				for _, s := range gen.RefSites(ws) {
+					_, _, fails := st.ValidSpellings(s)
+					for _, sp := range fails {
+						bad = append(bad, func() { s.Set(sp) })
+					}
+				}
+				if len(bad) > 0 {
+					gen.Pick(t, bad, "badspelling")()
+					c.Mutation = "unresolvable-spelling"
+				}
 			}
 			c.Files, c.Names = ws.PrintAll(), ws.Names()
 			if rapid.Bool().Draw(t, "respell") {
